@@ -60,6 +60,19 @@ func AddHooks(ctx *core.Context, cronner Cronner, state core.State) error {
 		}
 
 		if schedule == "" {
+			// Not a scheduled rule.  If it replaces one, that rule's
+			// job has to go, or the cron would keep triggering the
+			// id.  (The state still holds the previous fact while
+			// the add hook runs.)
+			if cronner != nil {
+				if previous, err := state.Get(ctx, id); err == nil && previous != nil {
+					if was, _ := getSchedule(ctx, previous); was != "" {
+						if _, err := cronner.Rem(ctx, id); err != nil {
+							return err
+						}
+					}
+				}
+			}
 			return nil
 		}
 
